@@ -84,11 +84,11 @@ SPECS = {
     "C05": pcheck.PSpec(
         "C05",
         clauses=["StateCarried", "Compiles", "BookingFault"],
-        profiles={"quick": [("MCQueryGen_core_s.cfg", None), ("MCQueryGen_rows2.cfg", None, {"cap": {"quick": 330, "thorough": 1500}})],
-                  "thorough": [("MCQueryGen_core.cfg", None), ("MCQueryGen_rows2_t.cfg", None, {"cap": {"quick": 330, "thorough": 1500}})]},
+        profiles={"quick": [("MCQueryGen_core_s.cfg", None), ("MCQueryGen_rows2.cfg", None, {"cap": {"quick": 330, "thorough": 1500}})] + _IFFIRST("quick"),
+                  "thorough": [("MCQueryGen_core.cfg", None), ("MCQueryGen_rows2_t.cfg", None, {"cap": {"quick": 330, "thorough": 1500}})] + _IFFIRST("thorough")},
         events={"quick": 8, "thorough": 16},
         seq_mode="histories",
-        cap={"quick": 930, "thorough": 7500},
+        cap={"quick": 1230, "thorough": 7500},
     ),
     "C06": pcheck.PSpec(
         "C06",
